@@ -177,7 +177,11 @@ func TestC11Rapid(t *testing.T) {
 			a := operand()
 			e = &xast.Bin{Op: "|", L: a, R: a} // identical operands
 		case 4:
-			e = &xast.Bin{Op: "|", L: &xast.Bin{Op: "|", L: operand(), R: operand()}, R: operand()}
+			if rapid.Bool().Draw(rt, "rightnested") {
+				e = &xast.Bin{Op: "|", L: operand(), R: &xast.Bin{Op: "|", L: operand(), R: operand()}} // a | (b | c)
+			} else {
+				e = &xast.Bin{Op: "|", L: &xast.Bin{Op: "|", L: operand(), R: operand()}, R: operand()}
+			}
 		default:
 			e = &xast.Bin{Op: "|", L: operand(), R: operand()}
 		}
